@@ -338,7 +338,10 @@ def record_pipeline(name, build):
     store = rs.state.StoreManager(store_factory=RS.RecordingStore.factory(log))
     out, err = [], []
     with C.quiet_stdout():
-        build(store).subscribe(on_next=out.append, on_error=err.append)
+        try:
+            build(store).subscribe(on_next=out.append, on_error=err.append)
+        except Exception as e:      # the calls recorded up to here are judged all the same
+            err.append('raised: %r' % e)
     traces = RS.to_traces(log)
     for t in traces:
         t['pipeline'] = name
@@ -423,7 +426,9 @@ def do_replay(path):
     tr = make_trace(w['gen'])
     (v,), _ = validate([tr])
     print('replay verdict:', v)
-    print('store: data_type=%s default=%s (%s)' % (tr.get('data_type', tr['dt']), tr['dflt'], w['gen']))
+    print('store: data_type=%s default=%s (%s)' % (
+        tr.get('data_type', tr['dt']), tr.get('default', tr['dflt']),
+        {k: v for k, v in w['gen'].items() if k != 'hist'}))
     upto = v[1] if v[0] == 'REJECT' else len(tr['calls'])
     for j, c in enumerate(tr['calls'][:upto]):
         print('  %3d %-11s i=%-5s k=%s a=%s mk=%s -> %s %s' % (
@@ -460,6 +465,7 @@ def main(tier, replay):
     if thorough:     # the complete reachable state space of the value stores (no history bound)
         for dtn in DTS[:-1]:
             job(dtn, {99, 0}, 0, {0}, count=False)
+
     def mc(const):
         return C.run_tlc('Store', C.cfg(constants=const, invariants=INVARIANTS,
                                         properties=PROPERTIES,
@@ -524,7 +530,7 @@ def main(tier, replay):
 
     # 3. replay on the real store, random sequences, pipelines --------------------
     traces = []
-    for n_b, b in enumerate(behaviours):
+    for b in behaviours:
         _, dtn, dflt, hist = b
         for via in ('direct', 'manager'):
             traces.append(make_trace({'kind': 'beh', 'via': via, 'dt': dtn, 'dflt': dflt,
@@ -605,7 +611,8 @@ def main(tier, replay):
                                              if a in COMMON_ACTIONS + VALUE_ACTIONS + MAP_ACTIONS},
                                  **r.summary()} for c, r in mc_stats],
         'invariants': INVARIANTS + PROPERTIES,
-        'tlc_behaviours_replayed': n_replayed,
+        'tlc_behaviours_replayed': len(behaviours),
+        'replays_of_tlc_behaviours': n_replayed,
         'behaviour_generation': gen_counts,
         'random_executions': n_random,
         'pipeline_store_traces': n_pipeline,
